@@ -494,6 +494,17 @@ func (gb *gcpBalancer) UpdateSubConnState(sc balancer.SubConn, scs balancer.SubC
 		delete(gb.scRefs, oldSc)
 		delete(gb.scStates, oldSc)
 		gb.scRefs[sc] = scRef
+		// Affinity keys and fallback mappings follow the channel to its new subconn.
+		for k, v := range gb.affinityMap {
+			if v == oldSc {
+				gb.affinityMap[k] = sc
+			}
+		}
+		for k, v := range gb.fallbackMap {
+			if v == oldSc {
+				gb.fallbackMap[k] = sc
+			}
+		}
 		scRef.subConn = sc
 		scRef.deCalls = 0
 		scRef.lastResp = time.Now()
